@@ -2,7 +2,10 @@
 """Regenerates MANIFEST.json from tools/claims.json (one entry per claimed property)."""
 import json, os
 V = os.path.dirname(os.path.dirname(os.path.abspath(__file__)))
-claims = json.load(open(os.path.join(V, "tools", "claims.json")))
+claims = {}
+for fn in sorted(os.listdir(os.path.join(V, "tools", "claims"))):
+    if fn.endswith(".json"):
+        claims[fn[:-5]] = json.load(open(os.path.join(V, "tools", "claims", fn)))
 props = [json.loads(l) for l in open(os.path.join(V, "properties.jsonl"))]
 checks, na = [], []
 for p in props:
